@@ -199,16 +199,20 @@ theorem cancel_pres (st : St) (id : Nat) : Pres st (cancel st id).1 := by
         exact Or.inr (Or.inl List.mem_cons_self)
       · exact Or.inr (Or.inr (Or.inr ⟨e, mem_erase_of_ne he hid, rfl⟩))
 
+theorem doAct_pres (self : Nat) (st : St) (a : Act) : Pres st (doAct self st a).1 := by
+  cases a with
+  | lookup sid => exact lookup_pres st sid
+  | cancel id => exact cancel_pres st id
+  | cancelSelf => exact cancel_pres st self
+  | servers n => exact fun k a => ⟨k, a⟩
+  | running id => exact Pres.refl st
+  | runningSelf => exact Pres.refl st
+
 theorem runScript_pres (self : Nat) : ∀ (acts : List Act) (st : St), Pres st (runScript self st acts).1 := by
   intro acts
   induction acts with
   | nil => intro st; exact Pres.refl st
-  | cons a as ih =>
-    intro st
-    cases a with
-    | lookup sid => simpa [runScript] using (lookup_pres st sid).trans (ih _)
-    | cancel id => simpa [runScript] using (cancel_pres st id).trans (ih _)
-    | cancelSelf => simpa [runScript] using (cancel_pres st self).trans (ih _)
+  | cons a as ih => intro st; simpa [runScript] using (doAct_pres self st a).trans (ih _)
 
 theorem finish_pres (st : St) (id : Nat) (r : Req) (res : Result) (hf : find st.reqs id = some r) :
     Pres st (finish st id r res).1 := by
@@ -301,6 +305,7 @@ theorem step_pres (st : St) (op : Op) : Pres st (step st op).1 := by
   | cancel id => exact cancel_pres st id
   | running id => exact Pres.refl st
   | recv d => exact onRecv_pres st d
+  | net d => exact onRecv_pres st (d.take 4096)
   | tick => exact tick_pres st
 
 theorem run_pres : ∀ (ops : List Op) (st : St), Pres st (run st ops).1 := by
@@ -326,16 +331,20 @@ theorem lookup_called (st : St) (sid : Nat) : (lookup st sid).1.called = st.call
 theorem cancel_called (st : St) (id : Nat) : (cancel st id).1.called = st.called := by
   unfold cancel; split <;> rfl
 
+theorem doAct_called (self : Nat) (st : St) (a : Act) : (doAct self st a).1.called = st.called := by
+  cases a with
+  | lookup sid => exact lookup_called st sid
+  | cancel id => exact cancel_called st id
+  | cancelSelf => exact cancel_called st self
+  | servers n => rfl
+  | running id => rfl
+  | runningSelf => rfl
+
 theorem runScript_called (self : Nat) : ∀ (acts : List Act) (st : St), (runScript self st acts).1.called = st.called := by
   intro acts
   induction acts with
   | nil => intro st; rfl
-  | cons a as ih =>
-    intro st
-    cases a with
-    | lookup sid => simp only [runScript]; rw [ih, lookup_called]
-    | cancel id => simp only [runScript]; rw [ih, cancel_called]
-    | cancelSelf => simp only [runScript]; rw [ih, cancel_called]
+  | cons a as ih => intro st; simp only [runScript]; rw [ih, doAct_called]
 
 theorem finish_called (st : St) (id : Nat) (r : Req) (res : Result) :
     CalledOK st (finish st id r res).1 (finish st id r res).2 := by
@@ -381,6 +390,14 @@ theorem foldl_onTimeout_called {st0 : St} (items : List Token) :
       · exact h.trans (finish_called acc.1 x.1 r { status := .timeout })
       · exact h
 
+theorem onRecv_called (st : St) (d : List Byte) : CalledOK st (onRecv st d).1 (onRecv st d).2 := by
+  unfold onRecv
+  split
+  · exact CalledOK.refl st
+  · split
+    · exact applyReply_called _ _
+    · exact CalledOK.refl st
+
 theorem step_called (st : St) (op : Op) : CalledOK st (step st op).1 (step st op).2.events := by
   cases op with
   | servers n => simp [CalledOK, step]
@@ -388,14 +405,8 @@ theorem step_called (st : St) (op : Op) : CalledOK st (step st op).1 (step st op
   | lookup sid => simp [step, CalledOK, lookup_called]
   | cancel id => simp [step, CalledOK, cancel_called]
   | running id => simp [CalledOK, step]
-  | recv d =>
-    simp only [step]
-    unfold onRecv
-    split
-    · exact CalledOK.refl st
-    · split
-      · exact applyReply_called _ _
-      · exact CalledOK.refl st
+  | recv d => exact onRecv_called st d
+  | net d => exact onRecv_called st (d.take 4096)
   | tick =>
     simp only [step]
     unfold tick
@@ -413,19 +424,51 @@ theorem run_called : ∀ (ops : List Op) (st : St), CalledOK st (run st ops).1 (
     simpa [run, allEvents] using (step_called st op).trans (ih _)
 
 
-/-! ### a cancelled lookup is never called, a called one never cancelled -/
+/-! ### a cancelled or refused lookup is never called, a called one never cancelled -/
 
-/-- the logs are disjoint, an outstanding lookup is in neither, everything logged was issued -/
-def Disj (st : St) : Prop :=
-  (∀ s ∈ st.cancelled, s ∉ st.called) ∧
-  (∀ e ∈ st.reqs, e.2.serial ∉ st.called ∧ e.2.serial ∉ st.cancelled) ∧
-  (∀ s ∈ st.called, s < st.nextSerial) ∧ (∀ s ∈ st.cancelled, s < st.nextSerial)
+/-- the three logs are pairwise disjoint, an outstanding lookup is in none of them, everything
+logged was issued -/
+structure Disj (st : St) : Prop where
+  cc : ∀ s ∈ st.cancelled, s ∉ st.called
+  rc : ∀ s ∈ st.refused, s ∉ st.called ∧ s ∉ st.cancelled
+  out : ∀ e ∈ st.reqs, e.2.serial ∉ st.called ∧ e.2.serial ∉ st.cancelled ∧ e.2.serial ∉ st.refused
+  bc : ∀ s ∈ st.called, s < st.nextSerial
+  bx : ∀ s ∈ st.cancelled, s < st.nextSerial
+  br : ∀ s ∈ st.refused, s < st.nextSerial
 
 def Inv (st : St) : Prop := WF st ∧ Disj st
 
+theorem inv_congr {st st' : St} (hr : st'.reqs = st.reqs) (hn : st'.nextSerial = st.nextSerial)
+    (hc : st'.called = st.called) (hx : st'.cancelled = st.cancelled) (hf : st'.refused = st.refused)
+    (h : Inv st) : Inv st' := by
+  obtain ⟨hw, d⟩ := h
+  refine ⟨⟨by rw [hr]; exact hw.1, by rw [hr, hn]; exact hw.2⟩, ?_⟩
+  constructor
+  · rw [hx, hc]; exact d.cc
+  · rw [hf, hc, hx]; exact d.rc
+  · rw [hr, hc, hx, hf]; exact d.out
+  · rw [hc, hn]; exact d.bc
+  · rw [hx, hn]; exact d.bx
+  · rw [hf, hn]; exact d.br
+
 theorem refuse_inv {st : St} (h : Inv st) : Inv (refuse st).1 := by
-  obtain ⟨hw, d1, d2, d3, d4⟩ := h
-  exact ⟨(refuse_ok hw).1.1, d1, d2, fun s hs => Nat.lt_succ_of_lt (d3 s hs), fun s hs => Nat.lt_succ_of_lt (d4 s hs)⟩
+  obtain ⟨hw, d⟩ := h
+  refine ⟨(refuse_ok hw).1.1, ?_⟩
+  refine ⟨d.cc, ?_, ?_, fun s hs => Nat.lt_succ_of_lt (d.bc s hs), fun s hs => Nat.lt_succ_of_lt (d.bx s hs), ?_⟩
+  · intro s hs
+    rcases List.mem_cons.mp hs with rfl | hs
+    · exact ⟨fun hc => Nat.lt_irrefl _ (d.bc _ hc), fun hc => Nat.lt_irrefl _ (d.bx _ hc)⟩
+    · exact d.rc s hs
+  · intro e he
+    refine ⟨(d.out e he).1, (d.out e he).2.1, ?_⟩
+    intro hc
+    rcases List.mem_cons.mp hc with heq | hc
+    · have := hw.2 e he; omega
+    · exact (d.out e he).2.2 hc
+  · intro s hs
+    rcases List.mem_cons.mp hs with rfl | hs
+    · exact Nat.lt_succ_self _
+    · exact Nat.lt_succ_of_lt (d.br s hs)
 
 theorem lookup_inv {st : St} (sid : Nat) (h : Inv st) : Inv (lookup st sid).1 := by
   refine ⟨(lookup_ok sid h.1).1.1, ?_⟩
@@ -434,12 +477,14 @@ theorem lookup_inv {st : St} (sid : Nat) (h : Inv st) : Inv (lookup st sid).1 :=
   · exact (refuse_inv h).2
   · split
     · exact (refuse_inv h).2
-    · obtain ⟨hw, d1, d2, d3, d4⟩ := h
-      refine ⟨d1, ?_, fun s hs => Nat.lt_succ_of_lt (d3 s hs), fun s hs => Nat.lt_succ_of_lt (d4 s hs)⟩
+    · obtain ⟨hw, d⟩ := h
+      refine ⟨d.cc, d.rc, ?_, fun s hs => Nat.lt_succ_of_lt (d.bc s hs), fun s hs => Nat.lt_succ_of_lt (d.bx s hs),
+              fun s hs => Nat.lt_succ_of_lt (d.br s hs)⟩
       intro e he
       rcases List.mem_cons.mp he with rfl | he
-      · exact ⟨fun hc => Nat.lt_irrefl _ (d3 _ hc), fun hc => Nat.lt_irrefl _ (d4 _ hc)⟩
-      · exact d2 e (mem_erase he).1
+      · exact ⟨fun hc => Nat.lt_irrefl _ (d.bc _ hc), fun hc => Nat.lt_irrefl _ (d.bx _ hc),
+               fun hc => Nat.lt_irrefl _ (d.br _ hc)⟩
+      · exact d.out e (mem_erase he).1
 
 theorem cancel_inv {st : St} (id : Nat) (h : Inv st) : Inv (cancel st id).1 := by
   refine ⟨(cancel_ok id h.1).1.1, ?_⟩
@@ -448,62 +493,80 @@ theorem cancel_inv {st : St} (id : Nat) (h : Inv st) : Inv (cancel st id).1 := b
   | none => exact h.2
   | some r =>
     dsimp only
-    obtain ⟨hw, d1, d2, d3, d4⟩ := h
+    obtain ⟨hw, d⟩ := h
     have hm := find_mem hf
-    refine ⟨?_, ?_, d3, ?_⟩
+    refine ⟨?_, ?_, ?_, d.bc, ?_, d.br⟩
     · intro s hs
       rcases List.mem_cons.mp hs with rfl | hs
-      · exact (d2 _ hm).1
-      · exact d1 s hs
+      · exact (d.out _ hm).1
+      · exact d.cc s hs
+    · intro s hs
+      refine ⟨(d.rc s hs).1, ?_⟩
+      intro hc
+      rcases List.mem_cons.mp hc with rfl | hc
+      · exact (d.out _ hm).2.2 hs
+      · exact (d.rc s hs).2 hc
     · intro e he
       obtain ⟨hmem, hne⟩ := mem_erase he
-      refine ⟨(d2 e hmem).1, ?_⟩
+      refine ⟨(d.out e hmem).1, ?_, (d.out e hmem).2.2⟩
       intro hc
       rcases List.mem_cons.mp hc with heq | hc
       · have : e = (id, r) := serial_inj st.reqs hw.1 hmem hm heq
         exact hne (by rw [this])
-      · exact (d2 e hmem).2 hc
+      · exact (d.out e hmem).2.1 hc
     · intro s hs
       rcases List.mem_cons.mp hs with rfl | hs
       · exact hw.2 _ hm
-      · exact d4 s hs
+      · exact d.bx s hs
+
+theorem doAct_inv (self : Nat) {st : St} (a : Act) (h : Inv st) : Inv (doAct self st a).1 := by
+  cases a with
+  | lookup sid => exact lookup_inv sid h
+  | cancel id => exact cancel_inv id h
+  | cancelSelf => exact cancel_inv self h
+  | servers n => (apply inv_congr (st := st) ?_ ?_ ?_ ?_ ?_ h <;> rfl)
+  | running id => exact h
+  | runningSelf => exact h
 
 theorem runScript_inv (self : Nat) : ∀ (acts : List Act) (st : St), Inv st → Inv (runScript self st acts).1 := by
   intro acts
   induction acts with
   | nil => intro st h; exact h
-  | cons a as ih =>
-    intro st h
-    cases a with
-    | lookup sid => simpa [runScript] using ih _ (lookup_inv sid h)
-    | cancel id => simpa [runScript] using ih _ (cancel_inv id h)
-    | cancelSelf => simpa [runScript] using ih _ (cancel_inv self h)
+  | cons a as ih => intro st h; simpa [runScript] using ih _ (doAct_inv self a h)
 
 theorem finish_inv {st : St} {id : Nat} {r : Req} (res : Result) (h : Inv st) (hf : find st.reqs id = some r) :
     Inv (finish st id r res).1 := by
-  obtain ⟨hw, d1, d2, d3, d4⟩ := h
+  obtain ⟨hw, d⟩ := h
   have hm := find_mem hf
   show Inv (runScript id { st with reqs := erase st.reqs id, called := st.called ++ [r.serial] } r.script).1
   apply runScript_inv
-  refine ⟨wf_erase_wf id hw rfl rfl, ?_, ?_, ?_, d4⟩
+  refine ⟨wf_erase_wf id hw rfl rfl, ?_, ?_, ?_, ?_, d.bx, d.br⟩
   · intro s hs hc
     rcases List.mem_append.mp hc with hc | hc
-    · exact d1 s hs hc
+    · exact d.cc s hs hc
     · simp only [List.mem_singleton] at hc
       subst hc
-      exact (d2 _ hm).2 hs
-  · intro e he
-    obtain ⟨hmem, hne⟩ := mem_erase he
-    refine ⟨?_, (d2 e hmem).2⟩
+      exact (d.out _ hm).2.1 hs
+  · intro s hs
+    refine ⟨?_, (d.rc s hs).2⟩
     intro hc
     rcases List.mem_append.mp hc with hc | hc
-    · exact (d2 e hmem).1 hc
+    · exact (d.rc s hs).1 hc
+    · simp only [List.mem_singleton] at hc
+      subst hc
+      exact (d.out _ hm).2.2 hs
+  · intro e he
+    obtain ⟨hmem, hne⟩ := mem_erase he
+    refine ⟨?_, (d.out e hmem).2.1, (d.out e hmem).2.2⟩
+    intro hc
+    rcases List.mem_append.mp hc with hc | hc
+    · exact (d.out e hmem).1 hc
     · simp only [List.mem_singleton] at hc
       have : e = (id, r) := serial_inj st.reqs hw.1 hmem hm hc
       exact hne (by rw [this])
   · intro s hs
     rcases List.mem_append.mp hs with hs | hs
-    · exact d3 s hs
+    · exact d.bc s hs
     · simp only [List.mem_singleton] at hs
       subst hs
       exact hw.2 _ hm
@@ -531,10 +594,10 @@ theorem applyReply_inv {st : St} (rep : Reply) (h : Inv st) : Inv (applyReply st
         · split
           · rename_i h1 h2 h3
             simp only [h1, h2, h3, if_true, if_false] at hok
-            refine ⟨hok.1, h.2.1, ?_, h.2.2.2⟩
+            refine ⟨hok.1, h.2.cc, h.2.rc, ?_, h.2.bc, h.2.bx, h.2.br⟩
             intro e he
             obtain ⟨e0, he0, rfl⟩ := List.mem_map.mp he
-            have := h.2.2.1 e0 he0
+            have := h.2.out e0 he0
             split <;> exact this
           · exact finish_inv _ h hf
 
@@ -564,19 +627,20 @@ theorem foldl_onTimeout_inv (items : List Token) :
 
 theorem step_inv {st : St} (op : Op) (h : Inv st) : Inv (step st op).1 := by
   cases op with
-  | servers n => exact h
-  | defScript acts => exact h
+  | servers n => (apply inv_congr (st := st) ?_ ?_ ?_ ?_ ?_ h <;> rfl)
+  | defScript acts => (apply inv_congr (st := st) ?_ ?_ ?_ ?_ ?_ h <;> rfl)
   | lookup sid => exact lookup_inv sid h
   | cancel id => exact cancel_inv id h
   | running id => exact h
   | recv d => exact onRecv_inv d h
+  | net d => exact onRecv_inv (d.take 4096) h
   | tick =>
     simp only [step]
     unfold tick
     split
     · exact h
     · apply foldl_onTimeout_inv
-      exact h
+      (apply inv_congr (st := st) ?_ ?_ ?_ ?_ ?_ h <;> rfl)
 
 theorem run_inv : ∀ (ops : List Op) (st : St), Inv st → Inv (run st ops).1 := by
   intro ops
@@ -584,6 +648,6 @@ theorem run_inv : ∀ (ops : List Op) (st : St), Inv st → Inv (run st ops).1 :
   | nil => intro st h; exact h
   | cons op ops ih => intro st h; simpa [run] using ih _ (step_inv op h)
 
-theorem init_inv : Inv init := ⟨init_wf, by simp [Disj, init]⟩
+theorem init_inv : Inv init := ⟨init_wf, by constructor <;> simp [init]⟩
 
 end Tbox.C15
